@@ -78,7 +78,7 @@ class Runner:
         self.emu = build.tool("plain", "ovniemu")
         self.base = scratch.sub("runs")
 
-    def run(self, tag, scen, mode, inject=None):
+    def run(self, tag, scen, mode, inject=None, shortwrite=None):
         """mode: ('direct',None) or ('tmpdir', 'json-first'|'obs-first').  Returns dict."""
         d = os.path.join(self.base, tag)
         shutil.rmtree(d, ignore_errors=True)
@@ -87,6 +87,9 @@ class Runner:
         env["OVNI_TRACEDIR"] = os.path.join(d, "final")
         env.pop("OVNI_TMPDIR", None)
         env.pop("VERIF_READDIR", None)
+        env.pop("VERIF_SHORTWRITE", None)
+        if shortwrite:
+            env["VERIF_SHORTWRITE"] = shortwrite
         if mode[0] == "tmpdir":
             env["OVNI_TMPDIR"] = os.path.join(d, "tmp")
             env["VERIF_READDIR"] = mode[1]
@@ -280,13 +283,30 @@ def run_c10(prop, tier):
                         if tier == "quick" and e != FAULTS[s["sc"]][0] and s["sc"] != "write":
                             continue
                         jobs.append((sc, mode, i, s, e))
+                # partial completion: every write of the (single-threaded) runtime phase returns a short count once
+                if sc in ("h1", "h2"):
+                    nw = 0
+                    for i, s in enumerate(seq):
+                        if s["sc"] == "write" and not s["args"].startswith(("2,", "-1,")):
+                            try:
+                                if int(s["args"].rsplit(",", 1)[1]) <= 1:
+                                    continue
+                            except ValueError:
+                                pass
+                            nw += 1
+                            for how in (1, 2, 3):
+                                jobs.append((sc, mode, i, s, "SHORT%d:%d" % (nw, how)))
 
         def one(j):
             sc, mode, i, s, e = j
             tag = "f%d" % os.getpid()
-            r = runner.run(tag, sc, mode, inject="%s:error=%s:when=%d" % (s["sc"], e, s["n"]))
+            if e.startswith("SHORT"):
+                r = runner.run(tag, sc, mode, shortwrite=e[5:])
+                fired = any("VERIF-SHORT" in x[2] for x in r["log"])
+            else:
+                r = runner.run(tag, sc, mode, inject="%s:error=%s:when=%d" % (s["sc"], e, s["n"]))
+                fired = any("(INJECTED)" in x[4] for x in r["log"])
             full = refs[(sc, mode)]
-            fired = any("(INJECTED)" in x[4] for x in r["log"])
             if not fired:
                 return ("nofire",)
             aborted = r["rc"] in (134, -6) or any(x[1] == "+++" and "SIGABRT" in x[2] for x in r["log"])
@@ -317,7 +337,10 @@ def run_c10(prop, tier):
                 ob = read(os.path.join(fdirs[tid], "stream.obs")) if tid in fdirs else None
                 js = read(os.path.join(fdirs[tid], "stream.json")) if tid in fdirs else None
                 if ob != full[tid]["obs"]:
-                    probs.append("returned normally but the final stream.obs of thread.%d has %d of %d flushed bytes" % (tid, len(ob or b""), len(full[tid]["obs"])))
+                    if ob is not None and len(ob) == len(full[tid]["obs"]):
+                        probs.append("returned normally but the final stream.obs of thread.%d does not hold the flushed bytes (same length %d, different content)" % (tid, len(ob)))
+                    else:
+                        probs.append("returned normally but the final stream.obs of thread.%d has %d of %d flushed bytes" % (tid, len(ob or b""), len(full[tid]["obs"])))
                 elif js is None or b'"finished": 1' not in js:
                     probs.append("returned normally but the final stream.json of thread.%d is missing or not finished" % tid)
             if not probs:
@@ -340,10 +363,11 @@ def run_c10(prop, tier):
         ctx.cov["distinct_nontrivial"] = len(jobs)
         ctx.cov["outcomes"] = outcomes
         ctx.cov["rule"] = ("the same scenarios and modes as C09; every runtime-phase syscall (mkdir, openat, write, read, close, newfstatat, getdents64, unlink, rmdir) "
-                           "fails once with each errno of its class (EACCES/ENOSPC/EMFILE/EIO); oracle: abort with a diagnostic, or normal return with a complete "
+                           "fails once with each errno of its class (EACCES/ENOSPC/EMFILE/EIO), and every write() of the single-threaded scenarios completes partly once "
+                           "(1 byte, half, all but one byte; link-level interposition in the driver); oracle: abort with a diagnostic, or normal return with a complete "
                            "valid final trace accepted by ovniemu; in both cases no temporary file is removed while its final copy is incomplete")
         ctx.sample({"scenario": "h2", "mode": ["tmpdir", "obs-first"], "fault": "ENOSPC on the 2nd write of the relocation copy of stream.obs"})
-        ctx.assumptions += ["single faults; short writes are covered by C01 (link-level interposition), not here",
+        ctx.assumptions += ["single faults; stdio's own write loop (relocation copy) is not interposed",
                             "strace error injection: the call does not execute and returns -errno"]
         return ctx.finish()
     finally:
